@@ -104,6 +104,20 @@ func adminKillScenario(c *sup.Ctx, r *rng.R) {
 	reportCrash(c, run, &o)
 }
 
+// dropCycleKillScenario: an admin-created collection is created, filled with documents and dropped, over and over;
+// the kill comes from strace at the N-th pwrite64, so that it can land between the statements of one admin call
+// (which carry no hook points): a collection that survives must still hold exactly its documents.
+func dropCycleKillScenario(c *sup.Ctx, r *rng.R) {
+	stride := 6
+	if c.Tier == "thorough" {
+		stride = 1
+	}
+	run := &crash.Run{Tmp: c.Tmp, Strace: 100 + (c.Local/4)*stride + r.Intn(stride), Writer: crash.WriterArgs{Seed: c.Seed*1000 + uint64(c.Local%4), Ops: 12, Profile: "dropcycle"}, Reader: crash.ReaderArgs{Mode: 2 - 2*(c.Local%2), NewWrites: 1}}
+	o := run.Execute()
+	c.Count("drop_cycle_crash_runs", 1)
+	reportCrash(c, run, &o)
+}
+
 func straceKillScenario(c *sup.Ctx, r *rng.R) {
 	hist := uint64(c.Local % 12)
 	// opening the bucket (schema, collections, design document) takes ~120 pwrite64 calls spread over several
@@ -205,6 +219,7 @@ func init() {
 			crashPart("hook-kills-withmeta", 170, 3400, withMetaKillScenario),
 			crashPart("kills-during-admin-calls", 160, 2400, adminKillScenario),
 			crashPart("pwrite-kills", 144, 6000, straceKillScenario),
+			crashPart("pwrite-kills-in-drop-cycles", 160, 1600, dropCycleKillScenario),
 			crashPart("controls", 45, 300, controlScenario),
 			crashPart("reopen-clock", 40, 1200, reopenClockScenario),
 			crashPart("pending-expiry", 30, 300, pendingExpiryScenario),
